@@ -295,7 +295,7 @@ def _space(n, k):
 
 def harnesses(tier):
     u1 = [dict(n=n, k=k) for n in ((2, 3) if tier == "quick" else (2, 3, 4)) for k in (1, 2, 3)]
-    cap = 6 if tier == "quick" else 10
+    cap = 6 if tier == "quick" else 8
     u2 = []
     for shape, (n, comps) in SHAPES.items():
         for k in (0, 1, 2, 3):
@@ -320,7 +320,7 @@ def harnesses(tier):
     u3 = [dict(n_inputs=ni, lossy=l, with_vac=v, normalised=nm) for ni in (1, 2) for l in (False, True) for v in (False, True) for nm in (False, True)]
     return [
         ("U1.slos-kernel", h_slos_kernel, u1),
-        ("U2.backend", h_backend, u2, dict(check_timeout_ms=30000, max_paths=3000)),
+        ("U2.backend", h_backend, u2, dict(check_timeout_ms=30000, max_paths=3000, max_seconds=2400)),
         ("U3.pdist_calc", h_pdist_calc, u3),
-        ("U4.sampler", h_sampler, u4, dict(check_timeout_ms=30000, max_paths=3000)),
+        ("U4.sampler", h_sampler, u4, dict(check_timeout_ms=30000, max_paths=3000, max_seconds=2400)),
     ]
